@@ -13,3 +13,12 @@ func VerifOptions(opts ...Option) (workers int, failFast bool) {
 	}
 	return o.workers, o.failFast
 }
+
+// VerifWaitOnCancel: whether the returned cancel function would wait for all workers (WithWaitOnCancel).
+func VerifWaitOnCancel(opts ...Option) bool {
+	o := options{waitOnCancel: defaultWaitOnCancel}
+	for _, opt := range opts {
+		opt(&o)
+	}
+	return o.waitOnCancel
+}
